@@ -186,6 +186,25 @@ Proof.
   - split; reflexivity.
   - reflexivity.
 Qed.
+
+(* every decoded CFG-ESFLA frame meets the two hypotheses; with props/C17.v's lever_first the TRANSLATED query returns the
+   first block of the requested type, or nothing, for every list of lever-arm blocks *)
+Lemma esfla_ints ver l : intsb (esfla_fields ver l) = true.
+Proof.
+  unfold esfla_fields. cbn [app intsb forallb snd]. fold intsb. generalize 0%nat.
+  induction l as [|a t IH]; intro i; [reflexivity|]. cbn [larms_fields larm_fields app intsb forallb snd]. fold intsb. apply IH.
+Qed.
+Theorem translated_lever_arm_refines_spec fuel ver l t (w : W) :
+  ghl_lever_arm (E := E) fuel (fobj (esfla_fields ver l)) (PInt t) w
+  = match spec_lever t l with
+    | None => none_res (esfla_fields ver l) w
+    | Some (x, y, z) => some_res (esfla_fields ver l) x y z w
+    end.
+Proof.
+  rewrite (bridge_lever_arm fuel _ t (Z.of_nat (length l)) w (esfla_ints ver l) eq_refl).
+  rewrite (lever_first ver l t). unfold lift_arm. destruct (spec_lever t l) as [[[x y] z]|]; reflexivity.
+Qed.
 End Br.
 
 Print Assumptions bridge_lever_arm.
+Print Assumptions translated_lever_arm_refines_spec.
